@@ -332,6 +332,7 @@ fn run(ctx: &RunCtx) -> Result<(), Violation> {
         _ => {}
     }
     let scheme = spec.build();
+    spec.verify_shape(&scheme).map_err(|e| v("scheme-shape", "", e))?;
     let mut model = wgen::gen_model_ctx(&spec, 4, false);
     // literal pool: leaves of the context values and their images under the harness functions
     let mut pool = Vec::new();
